@@ -48,3 +48,45 @@ def dense_mpo(Wlist):
 
 def conj(x):
     return x.conjugate() if hasattr(x, 'conjugate') else x
+
+
+def mpo_columns(A_list, d, states):
+    """
+    Columns of the matrix of an MPO (tensors A[i][s_out, s_in, a, b], outer bonds 1) for the given basis states
+    (index = sum_i digit_i d^(L-1-i)), by sparse propagation through the chain: {state: {row: entry}}.
+    Works on object arrays (symbolic entries); structurally zero entries are skipped.
+    """
+    L = len(A_list)
+    # per site and input digit: list of (s_out, a, b, value) of the structurally non-zero entries
+    tabs = []
+    for W in A_list:
+        tab = {}
+        for idx in np.ndindex(*W.shape):
+            x = W[idx]
+            if hasattr(x, 'is_zero'):
+                if x.is_zero():
+                    continue
+            elif x == 0:
+                continue
+            s_out, s_in, a, b = idx
+            tab.setdefault(s_in, []).append((s_out, a, b, x))
+        tabs.append(tab)
+    out = {}
+    for st in states:
+        digits = [(st // d ** (L - 1 - i)) % d for i in range(L)]
+        cur = {0: {0: 1}}            # row prefix (as integer) -> {bond index: value}
+        for i in range(L):
+            nxt = {}
+            for pre, vec in cur.items():
+                for (s_out, a, b, x) in tabs[i].get(digits[i], ()):
+                    if a in vec:
+                        tgt = nxt.setdefault(pre * d + s_out, {})
+                        t = vec[a] * x
+                        tgt[b] = tgt[b] + t if b in tgt else t
+            cur = nxt
+        col = {}
+        for row, vec in cur.items():
+            if 0 in vec:
+                col[row] = vec[0]
+        out[st] = col
+    return out
